@@ -68,7 +68,8 @@ def run_case(case, ctx):
     b0 = Curve(kv, lib.mk_points(lib.dec(case["B_P"]), nt))  # same KnotVector object
     UC, PC, WC, _ = cv.dec_curve(case["C"])
     c0 = lib.mk_curve(UC, PC, WC, nt)
-    pool = [a0, b0, c0, _copy.deepcopy(a0)]
+    e0 = Curve(kv)  # no control points yet, same KnotVector object as a0 and b0
+    pool = [a0, b0, c0, _copy.deepcopy(a0), e0]
     ctx.cls(f"{nt}|dim{dim}|p{a0.degree}|{'rat' if W is not None else 'poly'}")
     raised = okmut = 0
 
@@ -87,7 +88,16 @@ def run_case(case, ctx):
         umin, umax = ks[0], ks[-1]
         p = t.degree
         span = umax - umin
-        newnode = umin + span * num(F(1 + r[0] % 28, 30))
+        # a new node must respect the separation bound of DESIGN 4: equal to a knot, or >= 1e-3 of the interval away
+        # from every knot (a value computed in float arithmetic can land one ulp beside an existing knot)
+        newnode = None
+        for k_ in range(6):
+            cand = umin + span * num(F(1 + (r[0] + 7 * k_) % 28, 30))
+            if all(cand == kk or abs(cand - kk) >= span / 1000 for kk in ks):
+                newnode = cand
+                break
+        if newnode is None:
+            continue
         mutating = op in MUT
         res = None
         if op == "insert":
@@ -254,6 +264,6 @@ def run_case(case, ctx):
             inv = attach.curve_invariant(c)
             ctx.check(inv is None, f"consistency:{op}", f"after {op}: {inv}")
         whole_interval_ok(ctx, t, op)
-        if res is not None and hasattr(res, "_BaseCurve__knotvector") and len(pool) < 7:
+        if res is not None and hasattr(res, "_BaseCurve__knotvector") and len(pool) < 8:
             pool.append(res)
     ctx.mark_nontrivial(raised >= 1 and okmut >= 3)
